@@ -257,3 +257,9 @@ Fixpoint answers (as_is : bool) (g : graph) (km : keymap) (fuel : nat) (st : mst
       | None => [None]
       end
   end.
+
+(* ---- fragment for which the memo theorem is proved in full: graphs without loop parents ------ *)
+
+Definition is_direct (p : parent) : bool := match p with Direct _ => true | Loop _ => false end.
+
+Definition no_loopsb (g : graph) : bool := forallb (fun fl => forallb is_direct (parents fl)) (flows g).
